@@ -435,19 +435,19 @@ func genWire(c *Ctx) (string, error) {
 		if inner == nil {
 			return "", fmt.Errorf("%s: the Message arm has no inner type switch", f.name)
 		}
-		var arms []string
+		// the set of types, whatever the order of the arms and however types are grouped into arms
+		// (an arm listing two types is the same as two arms with the same body)
+		var names []string
 		for _, st := range inner.Body.List {
 			ic := st.(*ast.CaseClause)
-			var names []string
 			for _, e := range ic.List {
 				if tv, ok := c.Info.Types[e]; ok {
 					names = append(names, typeName(tv.Type))
 				}
 			}
-			sort.Strings(names)
-			arms = append(arms, coqStrs(names))
 		}
-		fmt.Fprintf(&b, "Definition gen_%s_stat_arms : list (list string) := [%s].\n", f.tag, strings.Join(arms, "; "))
+		sort.Strings(names)
+		fmt.Fprintf(&b, "Definition gen_%s_stat_arms : list string := %s.\n", f.tag, coqStrs(names))
 	}
 	b.WriteString("\n")
 
